@@ -237,6 +237,41 @@ def run(ctx, model_ok):
                 ctx.violation(f"declarations of a loop iteration ({key[0]}, {key[1]}): expected stdout {out!r} and status {st}", src, {"cli": c})
     tie.report_disagreements(ctx, [d for d in ldis if d[0] not in lbad], "loop_iteration_scope")
 
+    # the implicit `this` of a function reached through an object is a declaration of the call's own scope — the scope of the
+    # parameters and of the body's top-level declarations: declaring `this` there again is an error, in an inner scope it is not
+    M = 'o := {"n": 7, "f": fn(@P) {\n@B}}\n'
+    tcases = [
+        ("body-declares-this", M.replace("@P", "").replace("@B", '    this := "shadow"\n    print(this)\n') + "o.f()\n", "", "103",
+         "t.sd:2:5: in '<unnamed function>': 'this' is already defined in the current scope at [5:1]\n"),
+        ("parameter-named-this", M.replace("@P", "this").replace("@B", "    print(this)\n") + "o.f(1)\n", "", "103",
+         "t.sd:4:1: in '<unnamed function>': 'this' is already defined in the current scope at [1:23]\n"),
+        ("parameter-pattern-binds-this", M.replace("@P", "{this}").replace("@B", "    print(this)\n") + 'o.f({"this": 1})\n', "", "103",
+         "t.sd:4:1: in '<unnamed function>': 'this' is already defined in the current scope at [1:24]\n"),
+        ("fn-named-this-in-body", M.replace("@P", "").replace("@B", "    fn this() {\n        return 0\n    }\n") + "o.f()\n", "", "103",
+         "t.sd:2:8: in '<unnamed function>': 'this' is already defined in the current scope at [6:1]\n"),
+        ("for-target-this-is-inner", M.replace("@P", "").replace("@B", "    for [this, v] in [1] {\n        print(this)\n    }\n    print(this.n)\n") + "o.f()\n", "0\n7\n", "0", None),
+        ("inner-block-may-declare-this", M.replace("@P", "").replace("@B", "    {\n        this := 1\n        print(this)\n    }\n    print(this.n)\n    this = 5\n    print(this)\n")
+         + "o.f()\nprint(o.n)\n", "1\n7\n5\n7\n", "0", None),
+        ("plain-function-may-declare-this", "f := fn() {\n    this := 1\n    print(this)\n}\nf()\n", "1\n", "0", None),
+        ("plain-function-in-method-may-declare-this", M.replace("@P", "").replace("@B", "    g := fn() {\n        this := 2\n        return this\n    }\n    print(g())\n    print(this.n)\n")
+         + "o.f()\n", "2\n7\n", "0", None),
+        ("index-call-declares-this-too", M.replace("@P", "").replace("@B", "    this := 1\n") + 'o["f"]()\n', "", "103", None),
+    ]
+    timpl, tdis = tie.run(ctx, [c[1] for c in tcases], "implicit_this", model_ok, project=tie.proj_full)
+    tbad = set()
+    for (key, src, out, st, err), r in zip(tcases, timpl):
+        ctx.nontrivial(("implicit-this", key))
+        def wrong(x):
+            return (x["stdout"], x["status"]) != (out, st) or (err is not None and not x["stderr"].startswith(err)) or \
+                (st == "103" and "'this' is already defined in the current scope" not in x["stderr"])
+        if wrong(r):
+            c = core.run_cli(src)
+            if wrong(c):
+                tbad.add(src)
+                ctx.violation(f"the implicit `this` is a declaration of the call's own scope ({key}): expected stdout {out!r}, status {st}"
+                              + (f", stderr starting {err!r}" if err else ""), src, {"cli": c})
+    tie.report_disagreements(ctx, [d for d in tdis if d[0] not in tbad], "implicit_this")
+
     # through the command line itself (the driver reads the file): positions in a script that starts with a `#!` line, a
     # blank first line, CR LF line ends
     drv = [
